@@ -397,6 +397,12 @@ func init() {
 			for _, src := range undefModeShapes(tier) {
 				units = append(units, Unit{"VerifC04", []string{src, "split", c, "undef"}}, Unit{"VerifC04", []string{src, "all", c, "undef"}})
 			}
+			// available variables holding nil
+			var nilUnits []Unit
+			for _, src := range append(shapeFamily(1, leavesVarsOnly, false, "BI"), "(and (= i0 i1) b0)", "(or b0 (!= i0 i1))", "(if (= i0 i1) i2 i3)", "(= i0 i1 i2)", "(and (eq i0 i1) (ne i2 i3))") {
+				nilUnits = append(nilUnits, Unit{"VerifC04", []string{src, "splitn", c}})
+			}
+			units = append(nilUnits, units...)
 			return units
 		},
 		Reach:       []string{"definite", "completion-succeeds", "larger-mask-definite", "all-available"},
@@ -543,23 +549,24 @@ func init() {
 		Units: func(tier string, seed int64, sh *Shared) []Unit {
 			return withoutAliases(func() []Unit {
 				c := tierConfigs(tier)
-				units := shapeUnitsMax(tier, "VerifC12", [][]string{{"event", "v", c}}, [][]string{{"event", "v", c}}, 7)
 				small := 1
 				if tier == "thorough" {
 					small = 2
 				}
-				for _, src := range shapeFamily(small, leavesStandard, false, "BI") {
-					units = append(units, Unit{"VerifC12", []string{src, "debug", "v", c}})
-					units = append(units, Unit{"VerifC12", []string{src, "event", "f", c}})
-					units = append(units, Unit{"VerifC12", []string{src, "both", "v", "0000,1111"}})
-				}
+				var first []Unit
 				// the optimisation switches left unset (library defaults) in both the plain and the event-mode config
 				dfl := shapeFamily(small, leavesVarsOnly, false, "BI")
 				dfl = append(dfl, "(and (> i0 i1) b0)", "(or (= (/ 10 i0) 5) b0)", "(and (or (> i0 1) b0) b1)", "(if (and (= i0 i1) b0) (+ i0 1) i1)", "(or (and (> (+ i0 i1) 2) b0) b1 (not b2))")
 				for _, src := range dfl {
 					for _, ev := range []string{"debug", "event", "both"} {
-						units = append(units, Unit{"VerifC12", []string{src, ev, "v", "dflt"}})
+						first = append(first, Unit{"VerifC12", []string{src, ev, "v", "dflt"}})
 					}
+				}
+				units := append(first, shapeUnitsMax(tier, "VerifC12", [][]string{{"event", "v", c}}, [][]string{{"event", "v", c}}, 7)...)
+				for _, src := range shapeFamily(small, leavesStandard, false, "BI") {
+					units = append(units, Unit{"VerifC12", []string{src, "debug", "v", c}})
+					units = append(units, Unit{"VerifC12", []string{src, "event", "f", c}})
+					units = append(units, Unit{"VerifC12", []string{src, "both", "v", "0000,1111"}})
 				}
 				// operand stacks of every allocation class (≤8, ≤16, larger): wide and deep arithmetic
 				for _, n := range []int{8, 9, 16, 17, 18} {
